@@ -55,8 +55,13 @@ def classify(name, w):
 def read_rerun(path):
     if not os.path.exists(path):
         return None
-    with open(path, encoding="utf-8") as fh:
-        return [ln.strip() for ln in fh.read().splitlines() if ln.strip() and not ln.strip().startswith("#")]
+    with open(path, "rb") as fh:
+        data = fh.read()
+    try:
+        text = data.decode("utf-8")
+    except UnicodeDecodeError:
+        return ["<not UTF-8: %r>" % data[:80]]
+    return [ln.strip() for ln in text.splitlines() if ln.strip() and not ln.strip().startswith("#")]
 
 
 def one_history(lab, mon, rng, case, stale, sample=False):
@@ -338,9 +343,15 @@ def wip_history(mon, rng):
 
 def subprocess_history(mon, rng, case):
     from ..lab.subproc import Project
+    envname = RB.pick_environment(rng, mon, ["plain", "latin1_console", "latin1_console", "optimized", "warnings_as_errors_for_user_code"])
+    if envname == "latin1_console":
+        # a feature file with a non-ASCII name, in a process whose CONSOLE encoding is not the locale's: the report is a file, read
+        # back in the next run like any list file
+        case["program"]["features"][0]["file"] = u"gr\u00f6\u00dfe.feature"
+        case["program"]["features"][0].pop("_text", None)
+        mon.seen("feature_file_name_class", "non_ascii_under_latin1_console")
     proj = Project(case["program"])
     try:
-        envname = RB.pick_environment(rng, mon)
         r1 = proj.run(case["args"] + ["-f", "rerun", "-o", "rerun.txt", "-f", "plain"], environment=envname)
         if r1.get("timeout"):
             mon.note("subprocess watchdog fired (inconclusive case)")
@@ -386,6 +397,8 @@ def subprocess_history(mon, rng, case):
                 by_loc["features/%s:%d" % (os.path.basename(f.filename), s.line)] = s.name
         want = [by_loc.get(l) for l in lines]
         mon.case(("sub", RB.strip_case(case)), True)
+        mon.check("rerun.subprocess_file_lists_scenario_locations", all(w is not None for w in want),
+                  lambda: RB.witness(case, file=lines, known_locations=sorted(by_loc)[:8], process_environment=envname))
         mon.check("rerun.subprocess_second_run_executes_exactly", sorted(entered2) == sorted(x for x in want if x),
                   lambda: RB.witness(case, entered=entered2, want=want, file=lines, rc=(r1["rc"], r2["rc"]), stdout=r2["stdout"][-400:]))
     finally:
